@@ -25,6 +25,9 @@ RULE = ("scripts generated from the repository's dictionary forms: 3 engines x g
         "explicit / default t_max x time quantities in 7 units x optional explicit sample() calls; each driven step by step to "
         "completion (+2 further iterations); non-trivial when at least 2 steps were made; distinct by the whole script")
 ASSUMPTIONS = [
+    "Gillespie with init_state_processing='none' on non-integer amounts (accepted by the setters, but outside the stochastic method: negative "
+    "amounts / propensities, clock running backwards, no completion — reported to the coordinator as a candidate finding) is only driven "
+    "step by step with a cap, never through simulate_script",
     "the harness reads the native clock and state after each step through engineexport_get_time/get_state (other functions than the ones under test)",
     "float clock: for dyadic dt in seconds the clock n*dt is exact; otherwise times are compared to n*dt within 1e-9 relative and the completion step within +-1 as the statement allows",
     "floor(t/interval) in doubles equals the exact floor unless t/interval is within 1e-9 of an integer without being one (such cases are counted as ambiguous and skipped)",
@@ -46,6 +49,15 @@ def make_job(rng, jid, option=None, **kw):
     # a quarter of the jobs re-use the engine OBJECT (and the RDScript object): an earlier simulation of the same script
     # through the package's own driver ran to completion on it
     reuse = rng.random() < 0.25
+    # Gillespie on NON-INTEGER amounts without processing ("none") is outside what the stochastic method is defined for (the
+    # documentation of init_state_processing: stochastic methods require integer values): amounts and propensities go
+    # negative, the clock can run backwards and the run has no end.  Such scripts are still driven step by step (capped), but
+    # not through simulate_script, which drives to completion.
+    fractional_none = (option == "gillespie" and info["mode"] == "none"
+                       and any(float(v) != int(v) for v in S["system"]["state"]))
+    info["fractional_none"] = fractional_none
+    if fractional_none:
+        reuse = False
     if reuse:
         calls.append({"obj": 0, "call": "simulate", "script": 0, "full": True})
     calls += [{"obj": 0, "call": "setup", "script": 0, "peek": True, "peek_state": size}, {"obj": 0, "call": "is_complete"}]
@@ -59,7 +71,7 @@ def make_job(rng, jid, option=None, **kw):
     info["samples"] = samples
     info["pre_sample"] = sum(1 for c in calls if c["call"] == "sample")
     info["reuse"] = reuse
-    if not samples and not info["pre_sample"] and rng.random() < 0.6:
+    if not samples and not info["pre_sample"] and rng.random() < 0.6 and not fractional_none:
         # the same script through simulate_script on the (now used) engine object: the same records
         calls.append({"obj": 0, "call": "simulate", "script": 0, "full": True})
     return {"id": jid, "engines": [option], "scripts": [S], "calls": calls, "info": info, "timeout": 20}
@@ -359,6 +371,8 @@ def run(ctx):
         ctx.count("tmax_explicit" if info["explicit_tmax"] else "tmax_default")
         if info["samples"] or info["pre_sample"]:
             ctx.count("with_explicit_samples")
+        if info.get("fractional_none"):
+            ctx.count("gillespie_none_on_fractional_amounts_not_simulated_to_completion")
         case = {"job": {k: job[k] for k in ("id", "engines", "scripts", "calls", "info")}}
         if r["status"] != "ok":
             ctx.case(("crash", job["id"]), nontrivial=True)
